@@ -49,6 +49,19 @@ def main():
     loop = asyncio.new_event_loop()
     asyncio.set_event_loop(loop)
     params = dict(job['params'])
+    if job.get('stream_args') and 'difftool_args' in params:
+        # what `nbdiff-web <ref> <ref>` / git difftool pass for git revisions: in-memory blob streams or open files
+        import io
+        streams = {}
+        for k, name in params['difftool_args'].items():
+            path = os.path.join(params['cwd'], name)
+            if job['stream_args'] == 'open-file' and k == 'remote':
+                streams[k] = io.open(path, encoding='utf8')
+            else:
+                st = io.StringIO(io.open(path, encoding='utf8').read())
+                st.name = name
+                streams[k] = st
+        params['difftool_args'] = streams
     app = make_app(**params)
     sockets = netutil.bind_sockets(0, '127.0.0.1')
     server = httpserver.HTTPServer(app)
